@@ -26,6 +26,7 @@ EXTENDS Integers, Sequences, FiniteSets, Text
 
 CONSTANTS PathDot,   \* "fixed": the path converter admits LF inside a value; "orig": its '.' stops at LF
           AnyQuote,  \* "fixed": any-converter items are percent-encoded like every other text; "orig": emitted raw
+          DefaultVia, \* "to_url": a default for a placeholder is spelled by the converter's to_url (as the code does); "str": by str()
           KeyDefaults \* "count": build_compare_key orders by the number of defaults (as documented); "flag": only by having any
 
 SLASH == 47
@@ -170,7 +171,13 @@ Suitable(r, vals) ==
   /\ \A i \in 1..Len(r.defaults) : r.defaults[i].name \in Names(vals) => Tup(Named(r.defaults[i].name, ValOf(vals, r.defaults[i].name))) = Tup(r.defaults[i])
 
 \* the value rule r puts into the URL for variable n
-UrlVal(r, vals, n) == IF n \in Names(r.defaults) THEN ValOf(r.defaults, n) ELSE ValOf(vals, n)
+\* (a default for a placeholder of the rule is resolved through the converter's to_url when the rule is
+\* compiled: an int-typed default of a float converter is spelled str(float(d)) = d.0)
+Coerce(conv, val) == IF conv.k = "float" /\ val.ty = "int" THEN Val("float", val.v \o <<DOT, ZERO>>) ELSE val
+UrlVal(r, vals, n) == IF n \in Names(r.defaults) THEN Coerce(ConvOf(r, n), ValOf(r.defaults, n)) ELSE ValOf(vals, n)
+\* the path / host text of a placeholder that carries a default: the only canonical spelling
+DefaultText(r, n) == Unquote(ToUrl(ConvOf(r, n), Coerce(ConvOf(r, n), ValOf(r.defaults, n))))
+HasPlaceholderDefault(r) == \E i \in 1..Len(r.defaults) : r.defaults[i].name \in VarNames(r)
 CharsOf(t) == {t[i] : i \in 1..Len(t)}
 \* literal characters of a segment: prefix and every separator / suffix
 LitChars(s) == CharsOf(s.pre) \cup UNION {CharsOf(SegVars(s)[i].post) : i \in 1..Len(SegVars(s))}
@@ -185,10 +192,10 @@ MultiOK(r, s, vals) == s.more = <<>> \/ MultiClean(s, [i \in 1..Len(SegVars(s)) 
 IsLDH(c) == IsDigit(c) \/ (c >= 97 /\ c <= 122) \/ c = MINUS
 DomTextOK(t) == Len(t) >= 1 /\ t[1] # DOT /\ t[Len(t)] # DOT /\ (\A i \in 1..Len(t) : IsLDH(t[i]) \/ t[i] = DOT)
                 /\ \A i \in 1..(Len(t) - 1) : ~(t[i] = DOT /\ t[i + 1] = DOT)
-DomValueOK(conv, val) == IF conv.k = "int" THEN conv.a = 0 /\ val.v \notin {<<56, 48>>, <<52, 52, 51>>} ELSE conv.k \in {"string", "any"} /\ DomTextOK(val.v)
+DomValueOK(conv, val) == IF conv.k = "int" THEN val.v \notin {<<56, 48>>, <<52, 52, 51>>} ELSE conv.k \in {"string", "any"} /\ DomTextOK(val.v)
 \* the values of the call are inside the claimed domain for rule r
 InDomain(r, vals) ==
-  /\ \A n \in VarNames(r) : IF n \in Names(r.defaults) THEN Accepts(ConvOf(r, n), ValOf(r.defaults, n))
+  /\ \A n \in VarNames(r) : IF n \in Names(r.defaults) THEN Accepts(ConvOf(r, n), Coerce(ConvOf(r, n), ValOf(r.defaults, n)))
                             ELSE n \in Names(vals) /\ Accepts(ConvOf(r, n), ValOf(vals, n))
   /\ \A i \in 1..Len(r.segs) : r.segs[i].k = "var" => MultiOK(r, r.segs[i], vals)
   /\ \A i \in 1..Len(r.dsegs) : MultiOK(r, r.dsegs[i], vals) /\ \A j \in 1..Len(SegVars(r.dsegs[i])) :
@@ -196,7 +203,8 @@ InDomain(r, vals) ==
 
 RECURSIVE VarsText(_, _, _)
 VarsText(r, vs, vals) == IF vs = <<>> THEN <<>>
-                         ELSE ToUrl(Head(vs).conv, UrlVal(r, vals, Head(vs).name)) \o SegQuote(Head(vs).post) \o VarsText(r, Tail(vs), vals)
+                         ELSE (IF DefaultVia = "str" /\ Head(vs).name \in Names(r.defaults) THEN ValOf(r.defaults, Head(vs).name).v
+                               ELSE ToUrl(Head(vs).conv, UrlVal(r, vals, Head(vs).name))) \o SegQuote(Head(vs).post) \o VarsText(r, Tail(vs), vals)
 SegText(r, s, vals) == IF s.k = "lit" THEN SegQuote(s.t) ELSE SegQuote(s.pre) \o VarsText(r, SegVars(s), vals)
 \* the domain part the rule builds: its static subdomain / host or the filled-in pattern
 DomText(r, vals) == IF r.dsegs = <<>> THEN r.dom ELSE SegText(r, r.dsegs[1], vals)
@@ -336,19 +344,20 @@ Split(text, vs) ==
 \* the raw texts of the variables of segment s for the part p
 SegTexts(s, p) == IF s.more = <<>> THEN LET vt == VarText(s, p) IN [ok |-> vt.ok, ts |-> <<vt.t>>]
                   ELSE IF IsPrefixOf(s.pre, p) THEN Split(Drop(p, Len(s.pre)), SegVars(s)) ELSE [ok |-> FALSE, ts |-> <<>>]
-VarSegOK(s, p, canon, isdom) ==
+VarSegOK(r, s, p, canon, isdom) ==
   LET st == SegTexts(s, p) vs == SegVars(s) IN
   /\ st.ok
-  /\ \A j \in 1..Len(vs) : IF canon THEN CanonText(vs[j].conv, st.ts[j]) /\ (isdom => DomValueOK(vs[j].conv, Parse(vs[j].conv, st.ts[j]).val))
+  /\ \A j \in 1..Len(vs) : IF canon THEN /\ CanonText(vs[j].conv, st.ts[j]) /\ (isdom => DomValueOK(vs[j].conv, Parse(vs[j].conv, st.ts[j]).val))
+                                         /\ vs[j].name \in Names(r.defaults) => st.ts[j] = DefaultText(r, vs[j].name)
                             ELSE Parse(vs[j].conv, st.ts[j]).ok
   /\ (canon /\ s.more # <<>>) => MultiClean(s, st.ts)
 SegOK(r, parts, i, canon) ==
   LET s == r.segs[i] p == PartFor(r, parts, i) IN
   IF s.k = "lit" THEN p = s.t
-  ELSE /\ VarSegOK(s, p, canon, FALSE)
+  ELSE /\ VarSegOK(r, s, p, canon, FALSE)
        /\ (s.conv.k = "path" /\ r.branch /\ i = Len(r.segs)) => LET t == SegTexts(s, p).ts[1] IN t[Len(t)] # SLASH
 \* the domain part (subdomain or host) the router sees against the rule's static or dynamic domain
-DomAdmits(r, dom, canon) == IF r.dsegs = <<>> THEN r.dom = dom ELSE VarSegOK(r.dsegs[1], dom, canon, TRUE)
+DomAdmits(r, dom, canon) == IF r.dsegs = <<>> THEN r.dom = dom ELSE VarSegOK(r, r.dsegs[1], dom, canon, TRUE)
 
 PartsOf(path) == SplitOn(Tail(path), SLASH, <<>>)
 RuleAdmits(r, path, canon) ==
